@@ -207,6 +207,9 @@ func cmdCheck(args []string) int {
 	// floating-point library lemmas used by the float kernels of these functions
 	fpSeen := map[string]bool{}
 	for _, r := range run.Results {
+		if cfg.Sweep != nil {
+			break // the floating-point library lemmas are discharged under C16
+		}
 		for _, n := range r.Notes {
 			const pfx = "float kernel backed by FP lemma contracts/fp/"
 			if strings.HasPrefix(n, pfx) {
